@@ -1,14 +1,16 @@
 // Unit objlayers: the layered object representation.  Extracted verbatim from program/data.rs:
 // ObjectData (struct + get_layer, find_field, has_field, get_fields_order,
 // get_visible_fields_order, has_visible_field), ObjectLayer, ObjectField, ObjectFieldData,
-// Program::{extend_object, object_with_field_removed}, extend_object_clone_field / _layer; and from
-// program/eval/stdlib.rs the builtin Evaluator::do_std_object_remove_key (std.objectRemoveKey).
+// Program::{extend_object, object_with_field_removed}, extend_object_clone_field / _layer.
+// (std.objectRemoveKey's own decision logic is in unit rmkey.)  BTreeMap / btree_map::Entry are bound to a
+// two-slot ordered map through a local `std` module (shim/btshim.rs).
 // Hand-written environment: Gc (Rc), interned strings (small ids, ordered by id), FHashMap bound
 // to a two-slot map (shim/slotmap.rs; the extracted text uses only get / iter / collect / default on
 // it; an association list with a symbolic length made every harness of this unit, the canary included,
 // exceed 14 GB - measured).
 #![allow(dead_code, unused)]
 mod u {
+//@include shim/btshim.rs
 use std::cell::{Cell, OnceCell, RefCell};
 use std::collections::BTreeMap;
 use std::marker::PhantomData;
@@ -54,7 +56,6 @@ impl<'a, 'p> Evaluator<'a, 'p> {
 //@extract file=rsjsonnet-lang/src/program/data.rs impl=Program methods=extend_object,object_with_field_removed
 //@extract file=rsjsonnet-lang/src/program/data.rs item=fn:extend_object_clone_field
 //@extract file=rsjsonnet-lang/src/program/data.rs item=fn:extend_object_clone_layer
-//@extract file=rsjsonnet-lang/src/program/eval/stdlib.rs impl=Evaluator methods=do_std_object_remove_key
 
 #[cfg(kani)]
 mod vharness {
@@ -148,8 +149,17 @@ mod vharness {
     #[kani::unwind(7)]
     fn lookup_and_visibility_contract_n3() { lookup_and_visibility_contract_at(3); }
 
-    fn fields_order_agrees_with_lookup_at(n: usize) {
-        let (n, es, os, o) = any_object(n, 3);
+    fn fields_order_agrees_with_lookup_at(n: usize) { let (n, es, os, o) = any_object(n, 3); fields_order_check(n, es, os, o); }
+    /// entry of a CONCRETE kind (0 absent, 1 defined with any visibility, 2 remove marker of any depth)
+    fn entry_of_kind(k: u8, maxd: usize) -> E { match k { 0 => E::Absent, 1 => E::N(any_vis()), _ => { let d: usize = kani::any(); kani::assume(d <= maxd); E::R(d) } } }
+    /// three-layer object whose first name has the given per-layer kinds; the second name is defined (any visibility) in the bottom layer only
+    fn fields_order_kinds(k0: u8, k1: u8, k2: u8) {
+        let es = [entry_of_kind(k0, 3), entry_of_kind(k1, 3), entry_of_kind(k2, 3), E::Absent];
+        let os = [E::Absent, E::Absent, E::N(any_vis()), E::Absent];
+        let o: &'static ObjectData<'static> = Box::leak(Box::new(object(3, &es, &os)));
+        fields_order_check(3, es, os, o);
+    }
+    fn fields_order_check(n: usize, es: [E; MAXL], os: [E; MAXL], o: &'static ObjectData<'static>) {
         //@known D7 kani::assume(!d7_class(n, &es) && !d7_class(n, &os));
         let order = o.get_fields_order();
         let mut seen_name = false; let mut vis_name = V::Hidden;
@@ -176,10 +186,114 @@ mod vharness {
     #[kani::proof]
     #[kani::unwind(7)]
     fn fields_order_agrees_with_lookup_n2() { fields_order_agrees_with_lookup_at(2); }
-    //@harness props=C07,C05 strength=bounded bound="objects of 1..3 layers, two field names, every combination of per-layer entries {absent, :, ::, :::, removed(d<=3)}; this instance: exactly 3 layers" clause="the field list used by manifestation, std.length, objectFields(All) (get_fields_order) contains a name exactly when field lookup (in, objectHasAll, indexing) finds it, marks it hidden exactly when objectHas says it is not visible, is strictly sorted by name and lists each name once" timeout=900 replay=objlayers known=D7
+    //@harness props=C07,C05 strength=bounded tier=thorough bound="three-layer objects whose first name is, top to bottom, absent / absent / absent (any visibility, any remove depth <= 3) and whose second name is defined in the bottom layer; the 27 instances cover every kind vector" clause="the field list used by manifestation, std.length, objectFields(All) (get_fields_order) contains a name exactly when field lookup (in, objectHasAll, indexing) finds it, marks it hidden exactly when objectHas says it is not visible, is strictly sorted by name and lists each name once" timeout=900 replay=objlayers known=D7
     #[kani::proof]
     #[kani::unwind(7)]
-    fn fields_order_agrees_with_lookup_n3() { fields_order_agrees_with_lookup_at(3); }
+    fn fields_order_n3_k000() { fields_order_kinds(0, 0, 0); }
+    //@harness props=C07,C05 strength=bounded tier=thorough bound="three-layer objects whose first name is, top to bottom, absent / absent / defined (any visibility, any remove depth <= 3) and whose second name is defined in the bottom layer; the 27 instances cover every kind vector" clause="the field list used by manifestation, std.length, objectFields(All) (get_fields_order) contains a name exactly when field lookup (in, objectHasAll, indexing) finds it, marks it hidden exactly when objectHas says it is not visible, is strictly sorted by name and lists each name once" timeout=900 replay=objlayers known=D7
+    #[kani::proof]
+    #[kani::unwind(7)]
+    fn fields_order_n3_k001() { fields_order_kinds(0, 0, 1); }
+    //@harness props=C07,C05 strength=bounded tier=thorough bound="three-layer objects whose first name is, top to bottom, absent / absent / removed (any visibility, any remove depth <= 3) and whose second name is defined in the bottom layer; the 27 instances cover every kind vector" clause="the field list used by manifestation, std.length, objectFields(All) (get_fields_order) contains a name exactly when field lookup (in, objectHasAll, indexing) finds it, marks it hidden exactly when objectHas says it is not visible, is strictly sorted by name and lists each name once" timeout=900 replay=objlayers known=D7
+    #[kani::proof]
+    #[kani::unwind(7)]
+    fn fields_order_n3_k002() { fields_order_kinds(0, 0, 2); }
+    //@harness props=C07,C05 strength=bounded tier=thorough bound="three-layer objects whose first name is, top to bottom, absent / defined / absent (any visibility, any remove depth <= 3) and whose second name is defined in the bottom layer; the 27 instances cover every kind vector" clause="the field list used by manifestation, std.length, objectFields(All) (get_fields_order) contains a name exactly when field lookup (in, objectHasAll, indexing) finds it, marks it hidden exactly when objectHas says it is not visible, is strictly sorted by name and lists each name once" timeout=900 replay=objlayers known=D7
+    #[kani::proof]
+    #[kani::unwind(7)]
+    fn fields_order_n3_k010() { fields_order_kinds(0, 1, 0); }
+    //@harness props=C07,C05 strength=bounded tier=thorough bound="three-layer objects whose first name is, top to bottom, absent / defined / defined (any visibility, any remove depth <= 3) and whose second name is defined in the bottom layer; the 27 instances cover every kind vector" clause="the field list used by manifestation, std.length, objectFields(All) (get_fields_order) contains a name exactly when field lookup (in, objectHasAll, indexing) finds it, marks it hidden exactly when objectHas says it is not visible, is strictly sorted by name and lists each name once" timeout=900 replay=objlayers known=D7
+    #[kani::proof]
+    #[kani::unwind(7)]
+    fn fields_order_n3_k011() { fields_order_kinds(0, 1, 1); }
+    //@harness props=C07,C05 strength=bounded bound="three-layer objects whose first name is, top to bottom, absent / defined / removed (any visibility, any remove depth <= 3) and whose second name is defined in the bottom layer; the 27 instances cover every kind vector" clause="the field list used by manifestation, std.length, objectFields(All) (get_fields_order) contains a name exactly when field lookup (in, objectHasAll, indexing) finds it, marks it hidden exactly when objectHas says it is not visible, is strictly sorted by name and lists each name once" timeout=900 replay=objlayers known=D7
+    #[kani::proof]
+    #[kani::unwind(7)]
+    fn fields_order_n3_k012() { fields_order_kinds(0, 1, 2); }
+    //@harness props=C07,C05 strength=bounded tier=thorough bound="three-layer objects whose first name is, top to bottom, absent / removed / absent (any visibility, any remove depth <= 3) and whose second name is defined in the bottom layer; the 27 instances cover every kind vector" clause="the field list used by manifestation, std.length, objectFields(All) (get_fields_order) contains a name exactly when field lookup (in, objectHasAll, indexing) finds it, marks it hidden exactly when objectHas says it is not visible, is strictly sorted by name and lists each name once" timeout=900 replay=objlayers known=D7
+    #[kani::proof]
+    #[kani::unwind(7)]
+    fn fields_order_n3_k020() { fields_order_kinds(0, 2, 0); }
+    //@harness props=C07,C05 strength=bounded tier=thorough bound="three-layer objects whose first name is, top to bottom, absent / removed / defined (any visibility, any remove depth <= 3) and whose second name is defined in the bottom layer; the 27 instances cover every kind vector" clause="the field list used by manifestation, std.length, objectFields(All) (get_fields_order) contains a name exactly when field lookup (in, objectHasAll, indexing) finds it, marks it hidden exactly when objectHas says it is not visible, is strictly sorted by name and lists each name once" timeout=900 replay=objlayers known=D7
+    #[kani::proof]
+    #[kani::unwind(7)]
+    fn fields_order_n3_k021() { fields_order_kinds(0, 2, 1); }
+    //@harness props=C07,C05 strength=bounded tier=thorough bound="three-layer objects whose first name is, top to bottom, absent / removed / removed (any visibility, any remove depth <= 3) and whose second name is defined in the bottom layer; the 27 instances cover every kind vector" clause="the field list used by manifestation, std.length, objectFields(All) (get_fields_order) contains a name exactly when field lookup (in, objectHasAll, indexing) finds it, marks it hidden exactly when objectHas says it is not visible, is strictly sorted by name and lists each name once" timeout=900 replay=objlayers known=D7
+    #[kani::proof]
+    #[kani::unwind(7)]
+    fn fields_order_n3_k022() { fields_order_kinds(0, 2, 2); }
+    //@harness props=C07,C05 strength=bounded tier=thorough bound="three-layer objects whose first name is, top to bottom, defined / absent / absent (any visibility, any remove depth <= 3) and whose second name is defined in the bottom layer; the 27 instances cover every kind vector" clause="the field list used by manifestation, std.length, objectFields(All) (get_fields_order) contains a name exactly when field lookup (in, objectHasAll, indexing) finds it, marks it hidden exactly when objectHas says it is not visible, is strictly sorted by name and lists each name once" timeout=900 replay=objlayers known=D7
+    #[kani::proof]
+    #[kani::unwind(7)]
+    fn fields_order_n3_k100() { fields_order_kinds(1, 0, 0); }
+    //@harness props=C07,C05 strength=bounded bound="three-layer objects whose first name is, top to bottom, defined / absent / defined (any visibility, any remove depth <= 3) and whose second name is defined in the bottom layer; the 27 instances cover every kind vector" clause="the field list used by manifestation, std.length, objectFields(All) (get_fields_order) contains a name exactly when field lookup (in, objectHasAll, indexing) finds it, marks it hidden exactly when objectHas says it is not visible, is strictly sorted by name and lists each name once" timeout=900 replay=objlayers known=D7
+    #[kani::proof]
+    #[kani::unwind(7)]
+    fn fields_order_n3_k101() { fields_order_kinds(1, 0, 1); }
+    //@harness props=C07,C05 strength=bounded tier=thorough bound="three-layer objects whose first name is, top to bottom, defined / absent / removed (any visibility, any remove depth <= 3) and whose second name is defined in the bottom layer; the 27 instances cover every kind vector" clause="the field list used by manifestation, std.length, objectFields(All) (get_fields_order) contains a name exactly when field lookup (in, objectHasAll, indexing) finds it, marks it hidden exactly when objectHas says it is not visible, is strictly sorted by name and lists each name once" timeout=900 replay=objlayers known=D7
+    #[kani::proof]
+    #[kani::unwind(7)]
+    fn fields_order_n3_k102() { fields_order_kinds(1, 0, 2); }
+    //@harness props=C07,C05 strength=bounded tier=thorough bound="three-layer objects whose first name is, top to bottom, defined / defined / absent (any visibility, any remove depth <= 3) and whose second name is defined in the bottom layer; the 27 instances cover every kind vector" clause="the field list used by manifestation, std.length, objectFields(All) (get_fields_order) contains a name exactly when field lookup (in, objectHasAll, indexing) finds it, marks it hidden exactly when objectHas says it is not visible, is strictly sorted by name and lists each name once" timeout=900 replay=objlayers known=D7
+    #[kani::proof]
+    #[kani::unwind(7)]
+    fn fields_order_n3_k110() { fields_order_kinds(1, 1, 0); }
+    //@harness props=C07,C05 strength=bounded bound="three-layer objects whose first name is, top to bottom, defined / defined / defined (any visibility, any remove depth <= 3) and whose second name is defined in the bottom layer; the 27 instances cover every kind vector" clause="the field list used by manifestation, std.length, objectFields(All) (get_fields_order) contains a name exactly when field lookup (in, objectHasAll, indexing) finds it, marks it hidden exactly when objectHas says it is not visible, is strictly sorted by name and lists each name once" timeout=900 replay=objlayers known=D7
+    #[kani::proof]
+    #[kani::unwind(7)]
+    fn fields_order_n3_k111() { fields_order_kinds(1, 1, 1); }
+    //@harness props=C07,C05 strength=bounded bound="three-layer objects whose first name is, top to bottom, defined / defined / removed (any visibility, any remove depth <= 3) and whose second name is defined in the bottom layer; the 27 instances cover every kind vector" clause="the field list used by manifestation, std.length, objectFields(All) (get_fields_order) contains a name exactly when field lookup (in, objectHasAll, indexing) finds it, marks it hidden exactly when objectHas says it is not visible, is strictly sorted by name and lists each name once" timeout=900 replay=objlayers known=D7
+    #[kani::proof]
+    #[kani::unwind(7)]
+    fn fields_order_n3_k112() { fields_order_kinds(1, 1, 2); }
+    //@harness props=C07,C05 strength=bounded bound="three-layer objects whose first name is, top to bottom, defined / removed / absent (any visibility, any remove depth <= 3) and whose second name is defined in the bottom layer; the 27 instances cover every kind vector" clause="the field list used by manifestation, std.length, objectFields(All) (get_fields_order) contains a name exactly when field lookup (in, objectHasAll, indexing) finds it, marks it hidden exactly when objectHas says it is not visible, is strictly sorted by name and lists each name once" timeout=900 replay=objlayers known=D7
+    #[kani::proof]
+    #[kani::unwind(7)]
+    fn fields_order_n3_k120() { fields_order_kinds(1, 2, 0); }
+    //@harness props=C07,C05 strength=bounded bound="three-layer objects whose first name is, top to bottom, defined / removed / defined (any visibility, any remove depth <= 3) and whose second name is defined in the bottom layer; the 27 instances cover every kind vector" clause="the field list used by manifestation, std.length, objectFields(All) (get_fields_order) contains a name exactly when field lookup (in, objectHasAll, indexing) finds it, marks it hidden exactly when objectHas says it is not visible, is strictly sorted by name and lists each name once" timeout=900 replay=objlayers known=D7
+    #[kani::proof]
+    #[kani::unwind(7)]
+    fn fields_order_n3_k121() { fields_order_kinds(1, 2, 1); }
+    //@harness props=C07,C05 strength=bounded tier=thorough bound="three-layer objects whose first name is, top to bottom, defined / removed / removed (any visibility, any remove depth <= 3) and whose second name is defined in the bottom layer; the 27 instances cover every kind vector" clause="the field list used by manifestation, std.length, objectFields(All) (get_fields_order) contains a name exactly when field lookup (in, objectHasAll, indexing) finds it, marks it hidden exactly when objectHas says it is not visible, is strictly sorted by name and lists each name once" timeout=900 replay=objlayers known=D7
+    #[kani::proof]
+    #[kani::unwind(7)]
+    fn fields_order_n3_k122() { fields_order_kinds(1, 2, 2); }
+    //@harness props=C07,C05 strength=bounded tier=thorough bound="three-layer objects whose first name is, top to bottom, removed / absent / absent (any visibility, any remove depth <= 3) and whose second name is defined in the bottom layer; the 27 instances cover every kind vector" clause="the field list used by manifestation, std.length, objectFields(All) (get_fields_order) contains a name exactly when field lookup (in, objectHasAll, indexing) finds it, marks it hidden exactly when objectHas says it is not visible, is strictly sorted by name and lists each name once" timeout=900 replay=objlayers known=D7
+    #[kani::proof]
+    #[kani::unwind(7)]
+    fn fields_order_n3_k200() { fields_order_kinds(2, 0, 0); }
+    //@harness props=C07,C05 strength=bounded tier=thorough bound="three-layer objects whose first name is, top to bottom, removed / absent / defined (any visibility, any remove depth <= 3) and whose second name is defined in the bottom layer; the 27 instances cover every kind vector" clause="the field list used by manifestation, std.length, objectFields(All) (get_fields_order) contains a name exactly when field lookup (in, objectHasAll, indexing) finds it, marks it hidden exactly when objectHas says it is not visible, is strictly sorted by name and lists each name once" timeout=900 replay=objlayers known=D7
+    #[kani::proof]
+    #[kani::unwind(7)]
+    fn fields_order_n3_k201() { fields_order_kinds(2, 0, 1); }
+    //@harness props=C07,C05 strength=bounded tier=thorough bound="three-layer objects whose first name is, top to bottom, removed / absent / removed (any visibility, any remove depth <= 3) and whose second name is defined in the bottom layer; the 27 instances cover every kind vector" clause="the field list used by manifestation, std.length, objectFields(All) (get_fields_order) contains a name exactly when field lookup (in, objectHasAll, indexing) finds it, marks it hidden exactly when objectHas says it is not visible, is strictly sorted by name and lists each name once" timeout=900 replay=objlayers known=D7
+    #[kani::proof]
+    #[kani::unwind(7)]
+    fn fields_order_n3_k202() { fields_order_kinds(2, 0, 2); }
+    //@harness props=C07,C05 strength=bounded tier=thorough bound="three-layer objects whose first name is, top to bottom, removed / defined / absent (any visibility, any remove depth <= 3) and whose second name is defined in the bottom layer; the 27 instances cover every kind vector" clause="the field list used by manifestation, std.length, objectFields(All) (get_fields_order) contains a name exactly when field lookup (in, objectHasAll, indexing) finds it, marks it hidden exactly when objectHas says it is not visible, is strictly sorted by name and lists each name once" timeout=900 replay=objlayers known=D7
+    #[kani::proof]
+    #[kani::unwind(7)]
+    fn fields_order_n3_k210() { fields_order_kinds(2, 1, 0); }
+    //@harness props=C07,C05 strength=bounded bound="three-layer objects whose first name is, top to bottom, removed / defined / defined (any visibility, any remove depth <= 3) and whose second name is defined in the bottom layer; the 27 instances cover every kind vector" clause="the field list used by manifestation, std.length, objectFields(All) (get_fields_order) contains a name exactly when field lookup (in, objectHasAll, indexing) finds it, marks it hidden exactly when objectHas says it is not visible, is strictly sorted by name and lists each name once" timeout=900 replay=objlayers known=D7
+    #[kani::proof]
+    #[kani::unwind(7)]
+    fn fields_order_n3_k211() { fields_order_kinds(2, 1, 1); }
+    //@harness props=C07,C05 strength=bounded tier=thorough bound="three-layer objects whose first name is, top to bottom, removed / defined / removed (any visibility, any remove depth <= 3) and whose second name is defined in the bottom layer; the 27 instances cover every kind vector" clause="the field list used by manifestation, std.length, objectFields(All) (get_fields_order) contains a name exactly when field lookup (in, objectHasAll, indexing) finds it, marks it hidden exactly when objectHas says it is not visible, is strictly sorted by name and lists each name once" timeout=900 replay=objlayers known=D7
+    #[kani::proof]
+    #[kani::unwind(7)]
+    fn fields_order_n3_k212() { fields_order_kinds(2, 1, 2); }
+    //@harness props=C07,C05 strength=bounded tier=thorough bound="three-layer objects whose first name is, top to bottom, removed / removed / absent (any visibility, any remove depth <= 3) and whose second name is defined in the bottom layer; the 27 instances cover every kind vector" clause="the field list used by manifestation, std.length, objectFields(All) (get_fields_order) contains a name exactly when field lookup (in, objectHasAll, indexing) finds it, marks it hidden exactly when objectHas says it is not visible, is strictly sorted by name and lists each name once" timeout=900 replay=objlayers known=D7
+    #[kani::proof]
+    #[kani::unwind(7)]
+    fn fields_order_n3_k220() { fields_order_kinds(2, 2, 0); }
+    //@harness props=C07,C05 strength=bounded bound="three-layer objects whose first name is, top to bottom, removed / removed / defined (any visibility, any remove depth <= 3) and whose second name is defined in the bottom layer; the 27 instances cover every kind vector" clause="the field list used by manifestation, std.length, objectFields(All) (get_fields_order) contains a name exactly when field lookup (in, objectHasAll, indexing) finds it, marks it hidden exactly when objectHas says it is not visible, is strictly sorted by name and lists each name once" timeout=900 replay=objlayers known=D7
+    #[kani::proof]
+    #[kani::unwind(7)]
+    fn fields_order_n3_k221() { fields_order_kinds(2, 2, 1); }
+    //@harness props=C07,C05 strength=bounded tier=thorough bound="three-layer objects whose first name is, top to bottom, removed / removed / removed (any visibility, any remove depth <= 3) and whose second name is defined in the bottom layer; the 27 instances cover every kind vector" clause="the field list used by manifestation, std.length, objectFields(All) (get_fields_order) contains a name exactly when field lookup (in, objectHasAll, indexing) finds it, marks it hidden exactly when objectHas says it is not visible, is strictly sorted by name and lists each name once" timeout=900 replay=objlayers known=D7
+    #[kani::proof]
+    #[kani::unwind(7)]
+    fn fields_order_n3_k222() { fields_order_kinds(2, 2, 2); }
     /// witness class of known finding D7: a `:` definition above a remove marker above a deeper definition
     fn d7_class(n: usize, es: &[E; MAXL]) -> bool {
         let mut i = 0; let mut default_seen = false;
@@ -261,41 +375,6 @@ mod vharness {
     #[kani::proof]
     #[kani::unwind(7)]
     fn remove_key_removes_exactly_the_named_field_n3() { remove_key_removes_exactly_the_named_field_at(3); }
-
-    fn object_remove_key_builtin_contract_at(n: usize) {
-        let (n, es, os, o) = any_object(n, 1);
-        let which: u8 = kani::any(); kani::assume(which < 3);
-        let key: Rc<str> = if which == 0 { "a".into() } else if which == 1 { "b".into() } else { "zz".into() };
-        let had_other = o.find_field(0, if which == 0 { OTHER } else { NAME }).map(|(i, _)| i);
-        let mut p = Program { str_interner: StrInterner, _p: PhantomData };
-        let mut e = Evaluator { program: &mut p, value_stack: Vec::with_capacity(2) };
-        e.value_stack.push(ValueData::Object(Gc(o as *const _)));
-        e.value_stack.push(ValueData::String(key));
-        let r = e.do_std_object_remove_key();
-        assert!(r.is_ok() && e.value_stack.len() == 1, "C07,C01:objlayers:remove-key-stack-effect");
-        match &e.value_stack[0] {
-            ValueData::Object(res) => {
-                let res = res.view();
-                if which == 2 {
-                    assert!(std::ptr::eq(res.0, o as *const _), "C07:objlayers:unknown-key-returns-the-object-unchanged");
-                } else {
-                    let (gone, other) = if which == 0 { (NAME, OTHER) } else { (OTHER, NAME) };
-                    assert!(res.find_field(0, gone).is_none() && !res.has_field(0, gone) && !res.has_visible_field(gone), "C07:objlayers:remove-key-removes-the-field-whatever-its-visibility");
-                    assert!(res.find_field(0, other).map(|(i, _)| i) == had_other.map(|i| i + 1) && res.has_visible_field(other) == o.has_visible_field(other), "C07:objlayers:remove-key-leaves-the-other-field-intact");
-                }
-            }
-            _ => assert!(false, "C07:objlayers:remove-key-returns-an-object"),
-        }
-        core::mem::forget(e);
-    }
-    //@harness props=C07,C01 quickfor=C07,C05 strength=bounded bound="object of 1..2 layers, two names, every entry combination; key one of 'a', 'b' (interned) or 'zz' (never interned); this instance: exactly 1 layer" clause="std.objectRemoveKey builtin: for an interned key the result is a NEW object in which the key does not exist - whatever the field's visibility was, hidden fields included - and the other field is untouched; for a key that was never interned (so no object can have it) the original object is returned" timeout=900 replay=objlayers
-    #[kani::proof]
-    #[kani::unwind(7)]
-    fn object_remove_key_builtin_contract_n1() { object_remove_key_builtin_contract_at(1); }
-    //@harness props=C07,C01 quickfor=C07,C05 strength=bounded bound="object of 1..2 layers, two names, every entry combination; key one of 'a', 'b' (interned) or 'zz' (never interned); this instance: exactly 2 layers" clause="std.objectRemoveKey builtin: for an interned key the result is a NEW object in which the key does not exist - whatever the field's visibility was, hidden fields included - and the other field is untouched; for a key that was never interned (so no object can have it) the original object is returned" timeout=900 replay=objlayers
-    #[kani::proof]
-    #[kani::unwind(7)]
-    fn object_remove_key_builtin_contract_n2() { object_remove_key_builtin_contract_at(2); }
 
     fn any_present(maxd: usize) -> E { let k: u8 = kani::any(); if k % 2 == 0 { E::N(any_vis()) } else { let d: usize = kani::any(); kani::assume(d <= maxd); E::R(d) } }
 
